@@ -1,0 +1,1054 @@
+//go:build verif
+
+package quic
+
+// Contracts for the root package.
+
+//@ func (s *baseServer) validateToken
+//@   props C14
+//@   requires s.config != nil
+//@   ensures [nil-token] implies(token == nil, !result)
+//@   ensures [address] implies(result, token != nil && ufb("addrmatch", token, addr))
+//@   ensures [lifetime] implies(result, lastresult("Since") <= ite(token.IsRetryToken, lastresult("(*Config).maxRetryTokenAge"), s.maxTokenAge))
+//@   modifies nothing
+
+//@ func (c *Config) maxRetryTokenAge
+//@   props C14
+//@   modifies nothing
+//@ func (c *Config) handshakeTimeout
+//@   props C14
+//@   modifies nothing
+
+// ---------------- incoming streams map (C15) ----------------
+// concurrency bound: the streams still open plus the credit not yet used never exceed the configured maximum
+//@ pred (m *incomingStreamsMap[T]) imInv() = m.streams != nil && 0 <= m.nextStreamToAccept && m.nextStreamToAccept <= m.nextStreamToOpen && m.nextStreamToOpen <= 4611686018427387907 &&
+//@      m.nextStreamToAccept % 4 == m.nextStreamToOpen % 4 && -1 <= m.maxStream && m.maxStream <= 4611686018427387903 && (m.maxStream == -1 || m.maxStream % 4 == m.nextStreamToOpen % 4) &&
+//@      m.maxNumStreams <= 1152921504606846976 && 0 <= len(m.streams) &&
+//@      forall(k, int64, implies(k >= m.nextStreamToOpen, !has(m.streams, k))) &&
+//@      (m.maxStream < m.nextStreamToOpen || len(m.streams) + (m.maxStream - m.nextStreamToOpen) / 4 + 1 <= m.maxNumStreams)
+
+//@ func (m *incomingStreamsMap[T]) GetOrOpenStream
+//@   props C15 C12
+//@   requires m.imInv() && 0 <= id && id % 4 == m.nextStreamToOpen % 4
+//@   ensures [limit-iff] iff(result1 != nil, id > old(m.maxStream))
+//@   ensures [limit-code] implies(result1 != nil, iserr(result1, qerr.StreamLimitError) && m.nextStreamToOpen == old(m.nextStreamToOpen) && len(m.streams) == old(len(m.streams)))
+//@   ensures [opens] implies(result1 == nil, m.nextStreamToOpen == max(old(m.nextStreamToOpen), id + 4))
+//@   ensures [count] implies(result1 == nil && id >= old(m.nextStreamToOpen), len(m.streams) == old(len(m.streams)) + (id + 4 - old(m.nextStreamToOpen)) / 4)
+//@   ensures [inv] m.imInv()
+//@   ensures [max-kept] m.maxStream == old(m.maxStream) && m.maxNumStreams == old(m.maxNumStreams) && m.nextStreamToAccept == old(m.nextStreamToAccept)
+//@   modifies m.streams[*], m.nextStreamToOpen
+//@ loop (m *incomingStreamsMap[T]) GetOrOpenStream #0
+//@   invariant old(m.nextStreamToOpen) <= newNum && newNum <= id + 4 && newNum % 4 == id % 4
+//@   invariant len(m.streams) == old(len(m.streams)) + (newNum - old(m.nextStreamToOpen)) / 4
+//@   invariant forall(k, int64, implies(k >= newNum, !has(m.streams, k)))
+//@   invariant m.nextStreamToOpen == old(m.nextStreamToOpen) && m.streams == old(m.streams)
+//@   modifies m.streams[*]
+//@   decreases id + 4 - newNum
+
+//@ func (m *incomingStreamsMap[T]) deleteStream
+//@   props C15 C12
+//@   requires m.imInv() && 0 <= id
+//@   ensures [unknown] iff(result != nil, !old(has(m.streams, id)) || (id >= m.nextStreamToAccept && old(m.streams[id].shouldDelete)))
+//@   ensures [error-noop] implies(result != nil, len(m.streams) == old(len(m.streams)) && m.maxStream == old(m.maxStream))
+//@   ensures [deferred] implies(result == nil && id >= m.nextStreamToAccept, has(m.streams, id) && m.streams[id].shouldDelete && len(m.streams) == old(len(m.streams)) && m.maxStream == old(m.maxStream))
+//@   ensures [deleted] implies(result == nil && id < m.nextStreamToAccept, !has(m.streams, id) && len(m.streams) == old(len(m.streams)) - 1)
+//@   ensures [credit-monotone] m.maxStream >= old(m.maxStream)
+//@   ensures [credit-exact] implies(m.maxStream != old(m.maxStream), m.maxStream == m.nextStreamToOpen + 4 * (m.maxNumStreams - len(m.streams) - 1))
+//@   ensures [inv] m.imInv()
+//@   modifies m.streams[*], m.maxStream
+
+//@ func (m *incomingStreamsMap[T]) DeleteStream
+//@   props C15 C12
+//@   requires m.imInv() && 0 <= id
+//@   ensures [state-error] implies(result != nil, iserr(result, qerr.StreamStateError) && len(m.streams) == old(len(m.streams)) && m.maxStream == old(m.maxStream))
+//@   ensures [credit-monotone] m.maxStream >= old(m.maxStream)
+//@   ensures [inv] m.imInv()
+//@   modifies m.streams[*], m.maxStream
+
+// ---------------- outgoing streams map (C15) ----------------
+//@ pred (m *outgoingStreamsMap[T]) omInv() = m.streams != nil && 0 <= m.nextStream && m.nextStream <= 4611686018427387907 && -1 <= m.maxStream && m.maxStream <= 4611686018427387903 &&
+//@      forall(k, int64, implies(k >= m.nextStream, !has(m.streams, k)))
+
+//@ func (m *outgoingStreamsMap[T]) openStream
+//@   props C15
+//@   requires m.omInv() && m.nextStream <= 4611686018427387903
+//@   ensures [id] m.nextStream == old(m.nextStream) + 4 && has(m.streams, old(m.nextStream)) && m.streams[old(m.nextStream)] == result
+//@   ensures [inv] m.omInv()
+//@   ensures [limit-kept] m.maxStream == old(m.maxStream) && m.blockedSent == old(m.blockedSent)
+//@   modifies m.streams[*], m.nextStream
+
+//@ func (m *outgoingStreamsMap[T]) maybeSendBlockedFrame
+//@   props C15
+//@   requires m.maxStream >= -1
+//@   ensures [once] m.blockedSent
+//@   ensures [frame-iff] iff(called("field:queueStreamIDBlocked") == 1, !old(m.blockedSent))
+//@   modifies m.blockedSent
+
+//@ func (m *outgoingStreamsMap[T]) OpenStream
+//@   props C15
+//@   requires m.omInv()
+//@   ensures [opens-iff] iff(result1 == nil, old(m.closeErr) == nil && old(len(m.openQueue)) == 0 && old(m.nextStream) <= old(m.maxStream))
+//@   ensures [id] implies(result1 == nil, m.nextStream == old(m.nextStream) + 4 && has(m.streams, old(m.nextStream)) && old(m.nextStream) <= m.maxStream)
+//@   ensures [refused] implies(result1 != nil, m.nextStream == old(m.nextStream) && len(m.streams) == old(len(m.streams)))
+//@   ensures [never-beyond-limit] m.nextStream - 4 <= m.maxStream || m.nextStream == old(m.nextStream)
+//@   ensures [inv] m.omInv()
+//@   modifies m.streams[*], m.nextStream, m.blockedSent
+
+//@ func (m *outgoingStreamsMap[T]) GetStream
+//@   props C15
+//@   requires m.omInv()
+//@   ensures [never-opened] iff(result1 != nil, id >= m.nextStream)
+//@   ensures [code] implies(result1 != nil, iserr(result1, qerr.StreamStateError))
+//@   modifies nothing
+
+//@ func (m *outgoingStreamsMap[T]) DeleteStream
+//@   props C15
+//@   requires m.omInv()
+//@   ensures [unknown-iff] iff(result != nil, !old(has(m.streams, id)))
+//@   ensures [code] implies(result != nil, iserr(result, qerr.StreamStateError) && len(m.streams) == old(len(m.streams)))
+//@   ensures [deleted] implies(result == nil, !has(m.streams, id) && len(m.streams) == old(len(m.streams)) - 1)
+//@   ensures [inv] m.omInv()
+//@   modifies m.streams[*]
+
+//@ func (m *outgoingStreamsMap[T]) maybeUnblockOpenSync
+//@   props C15
+//@   modifies nothing
+
+//@ func (m *outgoingStreamsMap[T]) SetMaxStream
+//@   props C15
+//@   requires m.omInv() && -1 <= id && id <= 4611686018427387903
+//@   ensures [monotone] m.maxStream == max(old(m.maxStream), id)
+//@   ensures [epoch] implies(id <= old(m.maxStream), m.blockedSent == old(m.blockedSent))
+//@   ensures [inv] m.omInv()
+//@   modifies m.maxStream, m.blockedSent
+
+// ---------------- streamsMap dispatch (C15) ----------------
+//@ pred (m *streamsMap) smInv() = (m.perspective == protocol.PerspectiveServer || m.perspective == protocol.PerspectiveClient) &&
+//@      m.outgoingBidiStreams != nil && m.outgoingUniStreams != nil && m.incomingBidiStreams != nil && m.incomingUniStreams != nil &&
+//@      m.outgoingBidiStreams.omInv() && m.outgoingUniStreams.omInv() && m.incomingBidiStreams.imInv() && m.incomingUniStreams.imInv() &&
+//@      m.incomingBidiStreams.nextStreamToOpen % 4 == ite(m.perspective == protocol.PerspectiveServer, 0, 1) &&
+//@      m.incomingUniStreams.nextStreamToOpen % 4 == ite(m.perspective == protocol.PerspectiveServer, 2, 3)
+
+//@ func (m *streamsMap) getSendStream
+//@   props C15
+//@   requires m.smInv() && 0 <= id && id <= 4611686018427387903
+//@   let mine = ite(id % 2 == 0, protocol.PerspectiveClient, protocol.PerspectiveServer) == m.perspective
+//@   ensures [direction] implies(id % 4 >= 2 && !mine, iserr(result1, qerr.StreamStateError))
+//@   ensures [never-opened] implies(mine && id % 4 >= 2 && id >= old(m.outgoingUniStreams.nextStream), iserr(result1, qerr.StreamStateError))
+//@   ensures [never-opened-bidi] implies(mine && id % 4 < 2 && id >= old(m.outgoingBidiStreams.nextStream), iserr(result1, qerr.StreamStateError))
+//@   ensures [limit] implies(!mine && id % 4 < 2 && id > old(m.incomingBidiStreams.maxStream), iserr(result1, qerr.StreamLimitError))
+//@   modifies m.incomingBidiStreams.streams[*], m.incomingBidiStreams.nextStreamToOpen
+
+//@ func (m *streamsMap) getReceiveStream
+//@   props C15
+//@   requires m.smInv() && 0 <= id && id <= 4611686018427387903
+//@   let mine = ite(id % 2 == 0, protocol.PerspectiveClient, protocol.PerspectiveServer) == m.perspective
+//@   ensures [direction] implies(id % 4 >= 2 && mine, iserr(result1, qerr.StreamStateError))
+//@   ensures [never-opened-bidi] implies(mine && id % 4 < 2 && id >= old(m.outgoingBidiStreams.nextStream), iserr(result1, qerr.StreamStateError))
+//@   ensures [limit-uni] implies(!mine && id % 4 >= 2 && id > old(m.incomingUniStreams.maxStream), iserr(result1, qerr.StreamLimitError))
+//@   ensures [limit-bidi] implies(!mine && id % 4 < 2 && id > old(m.incomingBidiStreams.maxStream), iserr(result1, qerr.StreamLimitError))
+//@   modifies m.incomingBidiStreams.streams[*], m.incomingBidiStreams.nextStreamToOpen, m.incomingUniStreams.streams[*], m.incomingUniStreams.nextStreamToOpen
+
+//@ func (m *streamsMap) HandleMaxStreamsFrame
+//@   props C15
+//@   requires m.smInv() && 0 <= f.MaxStreamNum && f.MaxStreamNum <= 1152921504606846976 && (f.Type == protocol.StreamTypeUni || f.Type == protocol.StreamTypeBidi)
+//@   ensures [monotone] m.outgoingUniStreams.maxStream >= old(m.outgoingUniStreams.maxStream) && m.outgoingBidiStreams.maxStream >= old(m.outgoingBidiStreams.maxStream)
+//@   modifies m.outgoingUniStreams.maxStream, m.outgoingUniStreams.blockedSent, m.outgoingBidiStreams.maxStream, m.outgoingBidiStreams.blockedSent
+
+// ---------------- connection ID manager (C16, C12) ----------------
+//@ pred (h *connIDManager) qInv() =
+//@      forall2(j, k, 0, len(h.queue), h.queue[j].SequenceNumber < h.queue[k].SequenceNumber, trig(h.queue, j), trig(h.queue, k))
+
+//@ func (h *connIDManager) assertNotClosed
+//@   props C16
+//@   panics when h.closed
+//@   modifies nothing
+
+//@ func (h *connIDManager) addConnectionID
+//@   props C16
+//@   requires h.qInv()
+//@   ensures [inv] h.qInv()
+//@   ensures [queued] implies(result == nil, exists(k, 0, len(h.queue), h.queue[k].SequenceNumber == seq, trig(h.queue, k)))
+//@   ensures [grows-by-one] len(h.queue) == old(len(h.queue)) || len(h.queue) == old(len(h.queue)) + 1
+//@   ensures [array] samearray(h.queue, old(h.queue)) || isfresh(h.queue)
+//@   ensures [floor-kept] forall(q, uint64, implies(q <= seq && old(forall(k, 0, len(h.queue), h.queue[k].SequenceNumber >= q, trig(h.queue, k))), forall(k, 0, len(h.queue), h.queue[k].SequenceNumber >= q, trig(h.queue, k))))
+//@   ensures [error-kind] !istransporterr(result)
+//@   ensures [conflict] implies(result != nil, len(h.queue) == old(len(h.queue)) && old(exists(k, 0, len(h.queue), h.queue[k].SequenceNumber == seq, trig(h.queue, k))))
+//@   ensures [keeps] forall(q, uint64, implies(old(exists(k, 0, len(h.queue), h.queue[k].SequenceNumber == q, trig(h.queue, k))), exists(k, 0, len(h.queue), h.queue[k].SequenceNumber == q, trig(h.queue, k))))
+//@   modifies h.queue, h.queue[*]
+//@ loop (h *connIDManager) addConnectionID #0
+//@   invariant 0 <= rangeidx && rangeidx <= len(h.queue) && len(h.queue) >= 1
+//@   invariant forall(k, 0, rangeidx, h.queue[k].SequenceNumber < seq, trig(h.queue, k))
+//@   modifies nothing
+
+//@ func (h *connIDManager) updateConnectionID
+//@   props C16
+//@   requires h.qInv() && len(h.queue) >= 1 && !h.closed
+//@   ensures [retire-logged] called("field:queueControlFrame") == 1
+//@   ensures [active] h.activeSequenceNumber == old(h.queue[0].SequenceNumber)
+//@   ensures [retired] h.highestRetired == max(old(h.highestRetired), old(h.activeSequenceNumber))
+//@   ensures [queue] len(h.queue) == old(len(h.queue)) - 1 && h.qInv()
+//@   ensures [token-swap] called("field:addStatelessResetToken") == 1 && iff(called("field:removeStatelessResetToken") == 1, old(h.activeStatelessResetToken) != nil)
+//@   ensures [token-set] h.activeStatelessResetToken != nil
+//@   modifies h.highestRetired, h.queue, h.activeSequenceNumber, h.activeConnectionID.*, h.activeStatelessResetToken, h.packetsSinceLastChange, h.packetsPerConnectionID, h.rand.*
+
+//@ func (h *connIDManager) shouldUpdateConnID
+//@   props C16
+//@   ensures [needs-handshake] implies(result, h.handshakeComplete && len(h.queue) >= 1)
+//@   modifies nothing
+
+//@ func (h *connIDManager) Get
+//@   props C16
+//@   requires h.qInv()
+//@   panics when h.closed
+//@   ensures [rotates-with-retire] implies(h.activeSequenceNumber != old(h.activeSequenceNumber), called("field:queueControlFrame") == 1)
+//@   ensures [no-silent-retire] iff(called("field:queueControlFrame") == 0, len(h.queue) == old(len(h.queue))) && iff(called("field:queueControlFrame") == 1, len(h.queue) == old(len(h.queue)) - 1) && called("field:queueControlFrame") <= 1
+//@   ensures [unchanged-without-retire] implies(called("field:queueControlFrame") == 0, h.activeSequenceNumber == old(h.activeSequenceNumber) && h.highestRetired == old(h.highestRetired))
+//@   ensures [no-rotation-before-handshake] implies(!h.handshakeComplete, called("field:queueControlFrame") == 0)
+//@   modifies h.highestRetired, h.queue, h.activeSequenceNumber, h.activeConnectionID.*, h.activeStatelessResetToken, h.packetsSinceLastChange, h.packetsPerConnectionID, h.rand.*
+
+//@ func (h *connIDManager) Add
+//@   props C16 C12
+//@   requires h.qInv() && f.RetirePriorTo <= f.SequenceNumber && !h.closed
+//@   requires forall(k, 0, len(h.queue), h.queue[k].SequenceNumber >= h.highestRetired, trig(h.queue, k))
+//@   let limit = ite(h.connIDLimit != 0, h.connIDLimit, 4)
+//@   ensures [limit-advertised] implies(iserr(result, qerr.ConnectionIDLimitError), len(h.queue) >= limit)
+//@   ensures [within-limit-accepted] implies(len(h.queue) < limit, !iserr(result, qerr.ConnectionIDLimitError) || old(h.activeConnectionID.l) == 0)
+//@   ensures [inv] h.qInv()
+//@   modifies h.queue, h.queue[*], h.highestRetired, h.pathProbing[*], h.activeSequenceNumber, h.activeConnectionID.*, h.activeStatelessResetToken, h.packetsSinceLastChange, h.packetsPerConnectionID, h.rand.*
+
+//@ func (h *connIDManager) SetConnectionIDLimit
+//@   props C12 C16
+//@   ensures [recorded] h.connIDLimit == limit
+//@   modifies h.connIDLimit
+
+//@ func (h *connIDManager) add
+//@   props C16 C12
+//@   requires h.qInv() && f.RetirePriorTo <= f.SequenceNumber && !h.closed
+//@   requires forall(k, 0, len(h.queue), h.queue[k].SequenceNumber >= h.highestRetired, trig(h.queue, k))
+//@   let early = f.SequenceNumber < max(old(h.activeSequenceNumber), old(h.highestProbingID)) || f.SequenceNumber < old(h.highestRetired)
+//@   ensures [zero-len-cid] implies(old(h.activeConnectionID.l) == 0, iserr(result, qerr.ProtocolViolation) && len(h.queue) == old(len(h.queue)))
+//@   ensures [reordered-retired] implies(old(h.activeConnectionID.l) != 0 && early, result == nil && called("field:queueControlFrame") == 1 && len(h.queue) == old(len(h.queue)) && h.highestRetired == old(h.highestRetired))
+//@   ensures [queue-retired] implies(result == nil && old(h.activeConnectionID.l) != 0 && !early, forall(k, 0, len(h.queue), h.queue[k].SequenceNumber >= f.RetirePriorTo, trig(h.queue, k)))
+//@   ensures [probing-retired] implies(result == nil && old(h.activeConnectionID.l) != 0 && !early && f.RetirePriorTo != 0 && h.pathProbing != nil,
+//@            forall(k, pathID, implies(has(h.pathProbing, k), h.pathProbing[k].SequenceNumber >= f.RetirePriorTo)))
+//@   ensures [highest-retired] h.highestRetired >= old(h.highestRetired)
+//@   ensures [error-kind] !iserr(result, qerr.ConnectionIDLimitError)
+//@   ensures [inv] h.qInv()
+//@   modifies h.queue, h.queue[*], h.highestRetired, h.pathProbing[*], h.activeSequenceNumber, h.activeConnectionID.*, h.activeStatelessResetToken, h.packetsSinceLastChange, h.packetsPerConnectionID, h.rand.*
+//@   unclaimed frame:E:uint8 T2: the queue-filter/insert paths time out in every solver; not claimed until they discharge robustly
+//@   unclaimed frame:protocol.ConnectionID.l T2: same
+//@   unclaimed frame:quic.newConnID.SequenceNumber T2: same
+//@   unclaimed inv-step:loop1.3 T2: sortedness of the filtered queue (subsequence argument) times out on the grow path
+//@   unclaimed post:queue-retired T2: one path (Retire Prior To + rotation) times out
+//@ loop (h *connIDManager) add #0
+//@   invariant forall(k, pathID, implies(in(k, visited) && has(h.pathProbing, k), h.pathProbing[k].SequenceNumber >= f.RetirePriorTo))
+//@   bodyensures implies(entry.SequenceNumber < f.RetirePriorTo, calledinloop("field:queueControlFrame") == 1 && calledinloop("field:removeStatelessResetToken") == 1)
+//@   bodyensures implies(entry.SequenceNumber >= f.RetirePriorTo, calledinloop("field:queueControlFrame") == 0)
+//@   modifies h.pathProbing[*]
+//@ loop (h *connIDManager) add #1
+//@   invariant 0 <= rangeidx && rangeidx <= len(h.queue) && len(newQueue) <= rangeidx
+//@   invariant newQueue == nil || isfresh(newQueue)
+//@   invariant forall(k, 0, len(newQueue), newQueue[k].SequenceNumber >= f.RetirePriorTo, trig(newQueue, k))
+//@   invariant forall2(j, k, 0, len(newQueue), newQueue[j].SequenceNumber < newQueue[k].SequenceNumber, trig(newQueue, j), trig(newQueue, k))
+//@   invariant implies(len(newQueue) > 0 && rangeidx < len(h.queue), newQueue[len(newQueue)-1].SequenceNumber < h.queue[rangeidx].SequenceNumber)
+//@   bodyensures iff(entry.SequenceNumber < f.RetirePriorTo, calledinloop("field:queueControlFrame") == 1)
+//@   modifies nothing
+
+// ---------------- connection ID generator (C16) ----------------
+//@ iface (g quic.ConnectionIDGenerator) ConnectionIDLen
+//@   modifies nothing
+//@ iface (g quic.ConnectionIDGenerator) GenerateConnectionID
+//@   modifies nothing
+//@ func (cr connRunners) AddConnectionID
+//@   trusted iterates the registered transports' callbacks (function values); does not touch generator state
+//@   modifies nothing
+//@ func (cr connRunners) RemoveConnectionID
+//@   trusted iterates the registered transports' callbacks (function values); does not touch generator state
+//@   modifies nothing
+//@ func (cr connRunners) ReplaceWithClosed
+//@   trusted iterates the registered transports' callbacks (function values); does not touch generator state
+//@   modifies nothing
+//@ func (r *statelessResetter) GetStatelessResetToken
+//@   trusted HMAC of the connection ID (external cryptography)
+//@   modifies nothing
+
+//@ func (m *connIDGenerator) queueConnIDForRetiring
+//@   props C16
+//@   ensures [queued] len(m.connIDsToRetire) == old(len(m.connIDsToRetire)) + 1
+//@   modifies m.connIDsToRetire, m.connIDsToRetire[*]
+
+//@ func (m *connIDGenerator) SetHandshakeComplete
+//@   props C16
+//@   ensures [forgotten] m.initialClientDestConnID == nil
+//@   ensures [queued-once] len(m.connIDsToRetire) == old(len(m.connIDsToRetire)) + ite(old(m.initialClientDestConnID) != nil, 1, 0)
+//@   modifies m.initialClientDestConnID, m.connIDsToRetire, m.connIDsToRetire[*]
+
+//@ func (m *connIDGenerator) issueNewConnID
+//@   props C16
+//@   requires m.activeSrcConnIDs != nil && m.highestSeq < 4611686018427387903 && !has(m.activeSrcConnIDs, m.highestSeq + 1) && m.statelessResetter != nil
+//@   ensures [sequence] implies(result == nil, m.highestSeq == old(m.highestSeq) + 1 && has(m.activeSrcConnIDs, m.highestSeq) && len(m.activeSrcConnIDs) == old(len(m.activeSrcConnIDs)) + 1)
+//@   ensures [announced] implies(result == nil, called("field:queueControlFrame") == 1)
+//@   ensures [others-kept] forall(k, implies(k != old(m.highestSeq) + 1, has(m.activeSrcConnIDs, k) == old(has(m.activeSrcConnIDs, k))))
+//@   ensures [failed] implies(result != nil, m.highestSeq == old(m.highestSeq) && len(m.activeSrcConnIDs) == old(len(m.activeSrcConnIDs)))
+//@   modifies m.activeSrcConnIDs[*], m.highestSeq
+
+//@ func (m *connIDGenerator) Retire
+//@   props C16
+//@   requires m.activeSrcConnIDs != nil && m.highestSeq < 4611686018427387903 && m.statelessResetter != nil && forall(k, uint64, implies(k > m.highestSeq, !has(m.activeSrcConnIDs, k)))
+//@   ensures [beyond-issued] implies(seq > old(m.highestSeq), iserr(result, qerr.ProtocolViolation) && len(m.activeSrcConnIDs) == old(len(m.activeSrcConnIDs)))
+//@   ensures [duplicate] implies(seq <= old(m.highestSeq) && !old(has(m.activeSrcConnIDs, seq)), result == nil && len(m.activeSrcConnIDs) == old(len(m.activeSrcConnIDs)) && m.highestSeq == old(m.highestSeq))
+//@   ensures [count-never-grows] len(m.activeSrcConnIDs) <= old(len(m.activeSrcConnIDs))
+//@   ensures [retired-gone] implies(result == nil && old(has(m.activeSrcConnIDs, seq)), !has(m.activeSrcConnIDs, seq))
+//@   modifies m.activeSrcConnIDs[*], m.highestSeq, m.connIDsToRetire, m.connIDsToRetire[*]
+
+//@ extern slices.IndexFunc
+//@   ensures [range] -1 <= result && result < len(s)
+//@   modifies nothing
+
+// ---------------- frame sorter / crypto stream (C03, C09) ----------------
+//@ func (s *frameSorter) Push
+//@   trusted bounded stand-in (see DESIGN §3 C03): the gap-list insertion is checked exhaustively against a reference model for short push/pop sequences, not proved; the gap list's internal nodes are not modelled
+//@   bounded sequences of length <= 4 over the offset lattice {0,1,127,128,129,...}
+//@   ensures [err-kind] result == nil || !istransporterr(result)
+//@   ensures [gap-list-nonempty] s.gaps.len > 0
+//@   modifies s.queue[*]
+
+//@ func (s *frameSorter) HasMoreData
+//@   props C03
+//@   ensures [iff] iff(result, len(s.queue) > 0)
+//@   modifies nothing
+
+//@ func (s *frameSorter) Pop
+//@   props C03
+//@   requires s.queue != nil && s.gaps != nil && s.gaps.len > 0 && 0 <= s.readPos && s.readPos <= 4611686018427387903
+//@   ensures [empty] implies(!old(has(s.queue, s.readPos)), result0 == old(s.readPos) && result1 == nil && result2 == nil && s.readPos == old(s.readPos) && len(s.queue) == old(len(s.queue)))
+//@   ensures [entry] implies(old(has(s.queue, s.readPos)), result0 == old(s.readPos) && samearray(result1, old(s.queue[s.readPos].Data)) && len(result1) == old(len(s.queue[s.readPos].Data)) && result2 == old(s.queue[s.readPos].DoneCb))
+//@   ensures [advance] implies(old(has(s.queue, s.readPos)), s.readPos == old(s.readPos) + len(result1) && !has(s.queue, old(s.readPos)) && len(s.queue) == old(len(s.queue)) - 1)
+//@   unclaimed safe:panic:0 the "read position higher than a gap" check depends on the gap-list representation invariant, which is covered by the bounded stand-in for push
+//@   modifies s.queue[*], s.readPos
+
+//@ func (s *baseCryptoStream) HandleCryptoFrame
+//@   props C03
+//@   requires 0 <= f.Offset && f.Offset <= 4611686018427387903 && 0 <= s.highestOffset
+//@   let end = f.Offset + len(f.Data)
+//@   ensures [buffer-exceeded-iff] iff(iserr(result, qerr.CryptoBufferExceeded), end > 16384)
+//@   ensures [after-finish-iff] implies(end <= 16384 && old(s.finished), iff(iserr(result, qerr.ProtocolViolation), end > old(s.highestOffset)) && implies(end <= old(s.highestOffset), result == nil))
+//@   ensures [rejected-untouched] implies(end > 16384 || old(s.finished), s.highestOffset == old(s.highestOffset) && called("(*frameSorter).Push") == 0)
+//@   ensures [accepted] implies(end <= 16384 && !old(s.finished), s.highestOffset == max(old(s.highestOffset), end) && called("(*frameSorter).Push") == 1)
+//@   modifies s.highestOffset, s.queue.queue[*]
+
+//@ func (s *baseCryptoStream) Finish
+//@   props C03
+//@   ensures [iff] iff(result == nil, old(len(s.queue.queue)) == 0)
+//@   ensures [flag] s.finished == (old(s.finished) || result == nil)
+//@   ensures [code] implies(result != nil, iserr(result, qerr.ProtocolViolation))
+//@   modifies s.finished
+
+//@ func (s *baseCryptoStream) PopCryptoFrame
+//@   props C03 C09
+//@   requires 0 <= s.writeOffset && s.writeOffset <= 4611686018427387903 && 0 <= maxLen && maxLen <= 16383
+//@   ensures [nothing] implies(result == nil, s.writeOffset == old(s.writeOffset) && len(s.writeBuf) == old(len(s.writeBuf)))
+//@   ensures [true-offset] implies(result != nil, result.Offset == old(s.writeOffset) && alias(result.Data, old(s.writeBuf), 0) && len(result.Data) >= 1)
+//@   ensures [advance] implies(result != nil, s.writeOffset == old(s.writeOffset) + len(result.Data) && len(s.writeBuf) == old(len(s.writeBuf)) - len(result.Data) && alias(s.writeBuf, old(s.writeBuf), len(result.Data)))
+//@   ensures [fits] implies(result != nil, 1 + quicvarint.vlen(uint64(result.Offset)) + quicvarint.vlen(uint64(len(result.Data))) + len(result.Data) <= maxLen)
+//@   modifies s.writeBuf, s.writeOffset
+
+// ---------------- receive stream (C03, C04) ----------------
+// (devirt flowcontrol.StreamFlowController -> *streamFlowController is declared in the flowcontrol contracts)
+
+//@ func (s *ReceiveStream) signalRead
+//@   props C03
+//@   modifies nothing
+
+//@ func (s *ReceiveStream) isNewlyCompleted
+//@   props C03 C15
+//@   ensures [iff] iff(result, !old(s.completed) && s.finalOffset != protocol.MaxByteCount && (s.cancelledLocally || s.errorRead))
+//@   ensures [once] s.completed == (old(s.completed) || result)
+//@   modifies s.completed
+
+//@ func (s *ReceiveStream) dequeueNextFrame
+//@   props C03
+//@   requires s.frameQueue != nil && s.frameQueue.queue != nil && s.frameQueue.gaps != nil && s.frameQueue.gaps.len > 0 && 0 <= s.frameQueue.readPos && s.frameQueue.readPos <= 4611686018427387903
+//@   let q = s.frameQueue
+//@   ensures [released-once] called("field:currentFrameDone") == ite(old(s.currentFrameDone) != nil, 1, 0)
+//@   ensures [next] implies(old(has(q.queue, q.readPos)), samearray(s.currentFrame, old(q.queue[q.readPos].Data)) && len(s.currentFrame) == old(len(q.queue[q.readPos].Data)) && s.currentFrameDone == old(q.queue[q.readPos].DoneCb))
+//@   ensures [none] implies(!old(has(q.queue, q.readPos)), s.currentFrame == nil && s.currentFrameDone == nil)
+//@   ensures [last-iff] iff(s.currentFrameIsLast, old(q.readPos) + len(s.currentFrame) >= s.finalOffset && !s.cancelledRemotely)
+//@   ensures [restart] s.readPosInFrame == 0
+//@   modifies s.currentFrame, s.currentFrameDone, s.currentFrameIsLast, s.readPosInFrame, q.queue[*], q.readPos
+
+//@ func (s *ReceiveStream) cancelReadImpl
+//@   props C03
+//@   let noop = old(s.cancelledLocally) || s.closeForShutdownErr != nil
+//@   ensures [idempotent] implies(noop, !result && s.cancelledLocally == old(s.cancelledLocally) && s.queuedStopSending == old(s.queuedStopSending) && s.cancelErr == old(s.cancelErr))
+//@   ensures [cancels] implies(!noop, s.cancelledLocally)
+//@   ensures [stop-sending-iff] iff(result, !noop && !s.errorRead && !s.cancelledRemotely)
+//@   ensures [queued] implies(result, s.queuedStopSending && s.cancelErr != nil && s.cancelErr.ErrorCode == errorCode && !s.cancelErr.Remote && s.cancelErr.StreamID == s.streamID)
+//@   ensures [kept] implies(!result, s.queuedStopSending == old(s.queuedStopSending) && s.cancelErr == old(s.cancelErr))
+//@   modifies s.cancelledLocally, s.queuedStopSending, s.cancelErr
+
+//@ func (s *ReceiveStream) handleStreamFrameImpl
+//@   props C03 C04
+//@   let fc = dyn(s.flowController, *flowcontrol.streamFlowController)
+//@   let conn = dyn(fc.connection, *flowcontrol.connectionFlowController)
+//@   let maxOff = frame.Offset + len(frame.Data)
+//@   requires s.flowController != nil && typeis(s.flowController, *flowcontrol.streamFlowController) && fc.sInv() && s.frameQueue != nil
+//@   requires 0 <= frame.Offset && frame.Offset <= 4611686018427387903 - 1099511627776 && conn.highestReceived + maxOff <= 4611686018427387903
+//@   let known = old(fc.receivedFinalOffset)
+//@   let hr = old(fc.highestReceived)
+//@   let fserr = known && (frame.Fin && maxOff != hr || maxOff > hr) || frame.Fin && maxOff < hr
+//@   let fcerr = !fserr && maxOff > hr && (maxOff > fc.receiveWindow || old(conn.highestReceived) + (maxOff - hr) > conn.receiveWindow)
+//@   ensures [final-size-iff] iff(iserr(result, qerr.FinalSizeError), fserr)
+//@   ensures [flow-control-iff] iff(iserr(result, qerr.FlowControlError), fcerr)
+//@   ensures [rejected-not-queued] implies(fserr || fcerr, called("(*frameSorter).Push") == 0 && s.finalOffset == old(s.finalOffset))
+//@   ensures [final-offset] implies(!fserr && !fcerr, s.finalOffset == ite(frame.Fin, maxOff, old(s.finalOffset)))
+//@   ensures [queued-iff] implies(!fserr && !fcerr, called("(*frameSorter).Push") == ite(s.cancelledLocally, 0, 1))
+//@   ensures [credit-relation] implies(!fcerr && old(fc.highestReceived - fc.bytesRead <= conn.highestReceived - conn.bytesRead), fc.highestReceived - fc.bytesRead <= conn.highestReceived - conn.bytesRead)
+//@   ensures [flow-control-error-kind] implies(fcerr, result != nil)
+//@   ensures [inv] fc.sInv()
+//@   modifies s.finalOffset, s.frameQueue.queue[*], fc.highestReceived, fc.receivedFinalOffset, fc.epochStartTime, fc.epochStartOffset, conn.highestReceived, conn.epochStartTime, conn.epochStartOffset
+
+//@ func (s *ReceiveStream) handleResetStreamFrameImpl
+//@   props C03 C04
+//@   let fc = dyn(s.flowController, *flowcontrol.streamFlowController)
+//@   let conn = dyn(fc.connection, *flowcontrol.connectionFlowController)
+//@   requires s.flowController != nil && typeis(s.flowController, *flowcontrol.streamFlowController) && fc.sInv()
+//@   requires 0 <= frame.FinalSize && frame.FinalSize <= 4611686018427387903 && conn.highestReceived + frame.FinalSize <= 4611686018427387903
+//@   requires fc.highestReceived - fc.bytesRead <= conn.highestReceived - conn.bytesRead
+//@   let known = old(fc.receivedFinalOffset)
+//@   let hr = old(fc.highestReceived)
+//@   let fs = frame.FinalSize
+//@   let shut = s.closeForShutdownErr != nil
+//@   let fserr = !shut && (known && fs != hr || fs < hr)
+//@   let fcerr = !shut && !fserr && fs > hr && (fs > fc.receiveWindow || old(conn.highestReceived) + (fs - hr) > conn.receiveWindow)
+//@   let ok = !shut && !fserr && !fcerr
+//@   ensures [shutdown-noop] implies(shut, result == nil && s.finalOffset == old(s.finalOffset) && s.cancelledRemotely == old(s.cancelledRemotely) && s.reliableSize == old(s.reliableSize))
+//@   ensures [final-size-iff] iff(iserr(result, qerr.FinalSizeError), fserr)
+//@   ensures [flow-control-iff] iff(iserr(result, qerr.FlowControlError), fcerr)
+//@   ensures [rejected-untouched] implies(fserr || fcerr, s.finalOffset == old(s.finalOffset) && s.cancelledRemotely == old(s.cancelledRemotely) && s.reliableSize == old(s.reliableSize) && s.cancelErr == old(s.cancelErr))
+//@   ensures [final-offset] implies(ok, result == nil && s.finalOffset == fs)
+//@   ensures [reliable-size] implies(ok, s.reliableSize == ite((!old(s.cancelledRemotely) && old(s.reliableSize) == 0) || frame.ReliableSize < old(s.reliableSize), frame.ReliableSize, old(s.reliableSize)))
+//@   ensures [abandon-iff] implies(ok, iff(called("(*streamFlowController).Abandon") == 1, s.readPos >= s.reliableSize) && called("(*streamFlowController).Abandon") <= 1)
+//@   ensures [cancel-iff] implies(ok, s.cancelledRemotely == (old(s.cancelledRemotely) || !s.cancelledLocally))
+//@   ensures [error-once] implies(ok, ite(!old(s.cancelledRemotely) && !s.cancelledLocally, s.cancelErr != nil && s.cancelErr.Remote && s.cancelErr.ErrorCode == frame.ErrorCode && s.cancelErr.StreamID == s.streamID, s.cancelErr == old(s.cancelErr)))
+//@   ensures [inv] fc.sInv()
+//@   modifies s.finalOffset, s.reliableSize, s.cancelledRemotely, s.cancelErr, fc.highestReceived, fc.receivedFinalOffset, fc.epochStartTime, fc.epochStartOffset, fc.bytesRead, conn.highestReceived, conn.epochStartTime, conn.epochStartOffset, conn.bytesRead
+
+//@ func (s *ReceiveStream) getControlFrame
+//@   props C03 C04
+//@   let fc = dyn(s.flowController, *flowcontrol.streamFlowController)
+//@   let conn = dyn(fc.connection, *flowcontrol.connectionFlowController)
+//@   requires s.flowController != nil && typeis(s.flowController, *flowcontrol.streamFlowController) && fc.sInv()
+//@   requires implies(s.queuedStopSending, s.cancelErr != nil)
+//@   ensures [none-iff] iff(!ok, !old(s.queuedStopSending) && !old(s.queuedMaxStreamData))
+//@   ensures [stop-sending-first] implies(old(s.queuedStopSending), ok && !s.queuedStopSending && s.queuedMaxStreamData == old(s.queuedMaxStreamData) && hasMore == old(s.queuedMaxStreamData) && typeis(result0.Frame, *wire.StopSendingFrame))
+//@   ensures [stop-sending-fields] implies(old(s.queuedStopSending), dyn(result0.Frame, *wire.StopSendingFrame).StreamID == s.streamID && dyn(result0.Frame, *wire.StopSendingFrame).ErrorCode == s.cancelErr.ErrorCode)
+//@   ensures [max-stream-data] implies(!old(s.queuedStopSending) && old(s.queuedMaxStreamData), ok && !hasMore && !s.queuedMaxStreamData && typeis(result0.Frame, *wire.MaxStreamDataFrame) && dyn(result0.Frame, *wire.MaxStreamDataFrame).StreamID == s.streamID)
+//@   ensures [window-value] implies(!old(s.queuedStopSending) && old(s.queuedMaxStreamData), dyn(result0.Frame, *wire.MaxStreamDataFrame).MaximumStreamData == 0 && fc.receiveWindow == old(fc.receiveWindow) || dyn(result0.Frame, *wire.MaxStreamDataFrame).MaximumStreamData == fc.receiveWindow && fc.receiveWindow >= old(fc.receiveWindow))
+//@   modifies s.queuedStopSending, s.queuedMaxStreamData, fc.receiveWindow, fc.receiveWindowSize, fc.epochStartTime, fc.epochStartOffset, conn.receiveWindowSize, conn.epochStartTime, conn.epochStartOffset
+
+//@ func (s *frameSorter) deleteConsecutive
+//@   props C03
+//@   requires s.queue != nil
+//@   modifies s.queue[*]
+//@ loop (s *frameSorter) deleteConsecutive #0
+//@   modifies s.queue[*]
+
+//@ func (s *frameSorter) Peek
+//@   props C03
+//@   requires s.queue != nil && 0 <= offset && offset <= 4611686018427387903
+//@   ensures [short-iff] implies(len(p) == 0, result == nil)
+//@   modifies p[*]
+//@ loop (s *frameSorter) Peek #0
+//@   invariant 0 <= remaining && remaining <= len(p)
+//@   modifies nothing
+//@ loop (s *frameSorter) Peek #1
+//@   invariant 0 <= copied && copied <= len(p)
+//@   modifies p[*]
+
+//@ iface (x quic.streamSender) onStreamCompleted
+//@   modifies nothing
+//@ iface (x quic.streamSender) onHasStreamControlFrame
+//@   modifies nothing
+//@ iface (x quic.streamSender) onHasConnectionData
+//@   modifies nothing
+//@ iface (x quic.streamSender) onHasStreamData
+//@   modifies nothing
+
+//@ func (s *ReceiveStream) isRemoteCancellationEffective
+//@   props C03
+//@   ensures result == (s.cancelledRemotely && s.readPos >= s.reliableSize)
+//@   modifies nothing
+
+//@ func (s *ReceiveStream) handleStreamFrame
+//@   props C03 C15
+//@   let fc = dyn(s.flowController, *flowcontrol.streamFlowController)
+//@   let conn = dyn(fc.connection, *flowcontrol.connectionFlowController)
+//@   requires s.flowController != nil && typeis(s.flowController, *flowcontrol.streamFlowController) && fc.sInv() && s.frameQueue != nil && s.sender != nil
+//@   requires 0 <= frame.Offset && frame.Offset <= 4611686018427387903 - 1099511627776 && conn.highestReceived + frame.Offset + len(frame.Data) <= 4611686018427387903
+//@   requires fc.highestReceived - fc.bytesRead <= conn.highestReceived - conn.bytesRead
+//@   ensures [completed-once] called("(quic.streamSender).onStreamCompleted") == ite(s.completed && !old(s.completed), 1, 0)
+//@   ensures [completed-monotone] implies(old(s.completed), s.completed)
+//@   ensures [completed-needs-final-size] implies(s.completed && !old(s.completed), s.finalOffset != protocol.MaxByteCount && (s.cancelledLocally || s.errorRead))
+//@   ensures [abandon-with-completion] called("(*streamFlowController).Abandon") == ite(s.completed && !old(s.completed), 1, 0)
+//@   unclaimed pre:(*streamFlowController).Abandon@4.0 on the path where UpdateHighestReceived returned FLOW_CONTROL_ERROR for a locally cancelled stream, the stream's highest offset was raised without the connection's, so Abandon's credit relation does not hold; the error is connection-fatal and the counters are not used afterwards (observation recorded in DESIGN.md)
+//@   modifies s.finalOffset, s.completed, s.frameQueue.queue[*], fc.highestReceived, fc.receivedFinalOffset, fc.epochStartTime, fc.epochStartOffset, fc.bytesRead, conn.highestReceived, conn.epochStartTime, conn.epochStartOffset, conn.bytesRead
+
+//@ func (s *ReceiveStream) handleResetStreamFrame
+//@   props C03 C15
+//@   let fc = dyn(s.flowController, *flowcontrol.streamFlowController)
+//@   let conn = dyn(fc.connection, *flowcontrol.connectionFlowController)
+//@   requires s.flowController != nil && typeis(s.flowController, *flowcontrol.streamFlowController) && fc.sInv() && s.sender != nil
+//@   requires 0 <= frame.FinalSize && frame.FinalSize <= 4611686018427387903 && conn.highestReceived + frame.FinalSize <= 4611686018427387903
+//@   requires fc.highestReceived - fc.bytesRead <= conn.highestReceived - conn.bytesRead
+//@   ensures [completed-once] called("(quic.streamSender).onStreamCompleted") == ite(s.completed && !old(s.completed), 1, 0)
+//@   ensures [completed-monotone] implies(old(s.completed), s.completed)
+//@   ensures [completed-needs-final-size] implies(s.completed && !old(s.completed), s.finalOffset != protocol.MaxByteCount && (s.cancelledLocally || s.errorRead))
+//@   modifies s.finalOffset, s.reliableSize, s.cancelledRemotely, s.cancelErr, s.completed, fc.highestReceived, fc.receivedFinalOffset, fc.epochStartTime, fc.epochStartOffset, fc.bytesRead, conn.highestReceived, conn.epochStartTime, conn.epochStartOffset, conn.bytesRead
+
+//@ func (s *ReceiveStream) CancelRead
+//@   props C03 C15
+//@   let fc = dyn(s.flowController, *flowcontrol.streamFlowController)
+//@   let conn = dyn(fc.connection, *flowcontrol.connectionFlowController)
+//@   requires s.flowController != nil && typeis(s.flowController, *flowcontrol.streamFlowController) && fc.sInv() && s.sender != nil
+//@   requires fc.highestReceived - fc.bytesRead <= conn.highestReceived - conn.bytesRead
+//@   ensures [completed-once] called("(quic.streamSender).onStreamCompleted") == ite(s.completed && !old(s.completed), 1, 0)
+//@   ensures [completed-monotone] implies(old(s.completed), s.completed)
+//@   ensures [stop-sending-once] called("(quic.streamSender).onHasStreamControlFrame") == ite(!old(s.cancelledLocally) && s.closeForShutdownErr == nil && !s.errorRead && !s.cancelledRemotely, 1, 0)
+//@   ensures [abandon-with-completion] called("(*streamFlowController).Abandon") == ite(s.completed && !old(s.completed), 1, 0)
+//@   modifies s.cancelledLocally, s.queuedStopSending, s.cancelErr, s.completed, fc.bytesRead, conn.bytesRead
+
+// ---------------- ClientHello scrambler (C09) ----------------
+//@ extern (r encoding/binary.bigEndian) Uint16
+//@   requires len(b) >= 2
+//@   ensures result == uint16(b[0]) * 256 + uint16(b[1])
+//@   modifies nothing
+
+//@ func findSNIAndECH
+//@   props C09
+//@   ensures [sni-in-range] implies(err == nil, sniPos == -1 || (43 <= sniPos && sniPos + sniLen <= len(data)))
+//@   ensures [sni-len] implies(err == nil, 0 <= sniLen && sniLen <= 65535 && sniLen + 44 <= len(data) || sniLen == 0)
+//@   ensures [ech-in-range] implies(err == nil, echPos == -1 || (43 <= echPos && echPos + 4 <= len(data)))
+//@   ensures [is-client-hello] implies(err == nil, len(data) >= 4 && data[0] == 1)
+//@   modifies nothing
+//@ loop findSNIAndECH #0
+//@   invariant 0 <= extPos && extPos <= extensionsLen && 0 <= sniLen && sniLen <= 65535 && sniLen <= extensionsLen
+//@   invariant sniPos == -1 || (extensionsStart <= sniPos && sniPos + sniLen <= extensionsStart + extensionsLen)
+//@   invariant echPos == -1 || (extensionsStart <= echPos && echPos + 4 <= extensionsStart + extensionsLen)
+//@   modifies nothing
+//@ loop findSNIAndECH #1
+//@   invariant 2 <= listPos && listPos <= nameListLen + 2 && 0 <= sniLen && sniLen <= 65535 && sniLen <= extensionsLen && sniPos == -1
+//@   modifies nothing
+
+//@ pred (s *initialCryptoStream) cutOK(i int) = s.cuts[i].start == -1 || (0 <= s.cuts[i].start && s.cuts[i].start <= s.cuts[i].end && s.cuts[i].end <= s.end)
+//@ pred (s *initialCryptoStream) cutsOK() = s.cutOK(0) && s.cutOK(1) && 0 <= s.end && s.end <= len(s.writeBuf) && 0 <= s.writeOffset && s.writeOffset <= s.end
+
+//@ func (s *initialCryptoStream) Write$1
+//@   props C09
+//@   ensures [order] iff(result < 0, a.start != -1 && (b.start == -1 || a.start <= b.start))
+//@   modifies nothing
+
+//@ func (s *initialCryptoStream) HasData
+//@   props C09
+//@   ensures [iff] iff(result, len(s.writeBuf) > 0 && !(s.scramble && s.writeOffset == 0 && s.cuts[0].start == -1))
+//@   modifies nothing
+
+//@ func (s *initialCryptoStream) PopAllCryptoData
+//@   props C09
+//@   requires 0 <= s.writeOffset && s.writeOffset <= 4611686018427387903
+//@   ensures [scrambling-owns] implies(old(s.scramble), result == nil && len(s.writeBuf) == old(len(s.writeBuf)) && s.writeOffset == old(s.writeOffset))
+//@   ensures [whole-stream] implies(!old(s.scramble), samearray(result, old(s.writeBuf)) && len(result) == old(len(s.writeBuf)) && len(s.writeBuf) == 0 && s.writeOffset == old(s.writeOffset) + len(result))
+//@   modifies s.writeBuf, s.writeOffset
+
+//@ func (s *initialCryptoStream) Write
+//@   props C09
+//@   requires implies(s.scramble && s.cuts[0].start == -1, s.cuts[1].start == -1 && s.writeOffset == 0)
+//@   requires implies(s.scramble && s.cuts[0].start != -1, s.cutsOK())
+//@   ensures [count] result0 == len(p)
+//@   ensures [appended] len(s.writeBuf) == old(len(s.writeBuf)) + len(p)
+//@   ensures [cuts-ok] implies(s.scramble && s.cuts[0].start != -1, s.cutsOK())
+//@   ensures [ready-when-cut] implies(s.scramble && s.cuts[1].start != -1, s.cuts[0].start != -1)
+//@   ensures [sorted] implies(old(s.cuts[0].start == -1) && s.scramble && s.cuts[0].start != -1 && s.cuts[1].start != -1, s.cuts[0].start <= s.cuts[1].start)
+//@   ensures [untouched-after-ready] implies(old(s.scramble && s.cuts[0].start != -1), s.scramble && s.end == old(s.end) && s.cuts[0].start == old(s.cuts[0].start) && s.cuts[1].start == old(s.cuts[1].start) && s.cuts[0].end == old(s.cuts[0].end) && s.cuts[1].end == old(s.cuts[1].end))
+//@   ensures [plain] implies(!old(s.scramble), !s.scramble && result1 == nil)
+//@   modifies s.writeBuf, s.scramble, s.end, s.cuts[*], elems(uint8)
+
+//@ func (s *baseCryptoStream) HasData
+//@   props C03 C09
+//@   ensures result == (len(s.writeBuf) > 0)
+//@   modifies nothing
+
+//@ func (s *baseCryptoStream) Write
+//@   props C03 C09
+//@   ensures [count] result0 == len(p) && result1 == nil
+//@   ensures [appended] len(s.writeBuf) == old(len(s.writeBuf)) + len(p)
+//@   modifies s.writeBuf, elems(uint8)
+
+//@ func (s *initialCryptoStream) PopCryptoFrame
+//@   props C09
+//@   requires implies(s.scramble, s.cutsOK()) && 0 <= s.writeOffset && s.writeOffset <= 4611686018427387903 && 0 <= maxLen && maxLen <= 16383
+//@   ensures [true-offset] implies(old(s.scramble) && result != nil, alias(result.Data, old(s.writeBuf), result.Offset) && len(result.Data) >= 1 && 0 <= result.Offset && result.Offset + len(result.Data) <= old(s.end))
+//@   ensures [plain-true-offset] implies(!old(s.scramble) && result != nil, result.Offset == old(s.writeOffset) && alias(result.Data, old(s.writeBuf), 0) && len(result.Data) >= 1)
+//@   ensures [plain-advance] implies(!old(s.scramble) && result != nil, s.writeOffset == old(s.writeOffset) + len(result.Data) && alias(s.writeBuf, old(s.writeBuf), len(result.Data)) && len(s.writeBuf) == old(len(s.writeBuf)) - len(result.Data))
+//@   ensures [fits] implies(result != nil, 1 + quicvarint.vlen(uint64(result.Offset)) + quicvarint.vlen(uint64(len(result.Data))) + len(result.Data) <= maxLen)
+//@   ensures [inv] implies(s.scramble, s.cutsOK() && old(s.scramble))
+//@   ensures [buffer-kept-while-scrambling] implies(s.scramble, samearray(s.writeBuf, old(s.writeBuf)) && len(s.writeBuf) == old(len(s.writeBuf)) && s.end == old(s.end))
+//@   ensures [hand-over] implies(old(s.scramble) && !s.scramble, old(s.writeOffset) == old(s.end) && s.writeOffset == old(s.end) && alias(s.writeBuf, old(s.writeBuf), old(s.end)) && len(s.writeBuf) == old(len(s.writeBuf)) - old(s.end))
+//@   ensures [no-skipping] implies(old(s.scramble) && old(s.writeOffset) < old(s.end) && result != nil, result.Offset == old(s.writeOffset) && s.writeOffset >= old(s.writeOffset) + len(result.Data))
+//@   modifies s.writeBuf, s.writeOffset, s.end, s.scramble, s.cuts[*]
+//@ loop (s *initialCryptoStream) PopCryptoFrame #0
+//@   invariant s.cutsOK() && s.writeOffset == s.end && s.scramble
+//@   invariant implies(f == nil, s.cuts[0].start == old(s.cuts[0].start) && s.cuts[0].end == old(s.cuts[0].end) && s.cuts[1].start == old(s.cuts[1].start) && s.cuts[1].end == old(s.cuts[1].end))
+//@   invariant f == nil || (alias(f.Data, s.writeBuf, f.Offset) && len(f.Data) >= 1 && 0 <= f.Offset && f.Offset + len(f.Data) <= s.end && 1 + quicvarint.vlen(uint64(f.Offset)) + quicvarint.vlen(uint64(len(f.Data))) + len(f.Data) <= maxLen)
+//@   modifies s.cuts[*]
+//@ loop (s *initialCryptoStream) PopCryptoFrame #1
+//@   invariant nextCut.start == -1 && nextCut.end == -1
+//@   modifies nothing
+
+// ---------------- Initial flight builders (C09) ----------------
+//@ func cryptoSafeRandUint64
+//@   trusted draws from crypto/rand through math/big (external); contract is rand.Int's documented range [0, max-min)
+//@   requires max <= min || max - min <= 9223372036854775807
+//@   ensures implies(result1 == nil && max <= min, result0 == min)
+//@   ensures implies(result1 == nil && max > min, min <= result0 && result0 < max)
+//@   modifies nothing
+
+//@ func (r QUICCryptoRange) resolve
+//@   props C09
+//@   requires 0 <= streamLen && streamLen <= 1099511627776
+//@   let s0 = ite(r.Offset < 0, streamLen + r.Offset, r.Offset)
+//@   let e0 = ite(r.Length > 0, s0 + r.Length, streamLen + r.Length)
+//@   ensures [ok-iff] iff(err == nil, 0 <= s0 && s0 <= streamLen && s0 <= e0 && e0 <= streamLen)
+//@   ensures [bounds] implies(err == nil, start == s0 && end == e0 && 0 <= start && start <= end && end <= streamLen)
+//@   modifies nothing
+
+//@ func splitRange
+//@   props C09
+//@   requires 0 <= start && start < end && end <= 1099511627776
+//@   requires maxN <= minN || maxN - minN <= 9223372036854775807
+//@   ensures [count] implies(result1 == nil, len(result0) >= 1 && len(result0) <= end - start)
+//@   modifies nothing
+//@ loop splitRange #0
+//@   invariant 1 <= n && n <= end - start && i <= n - 1 && len(frames) == i && start <= off && off + (n - i) <= end
+//@   invariant isfresh(frames)
+//@   modifies frames[*]
+
+//@ extern bytes.NewReader
+//@   ensures result != nil
+//@   fresh
+//@   modifies nothing
+//@ extern clienthellod.ReadAllFrames
+//@   modifies nothing
+
+//@ func validateInitialFlight
+//@   props C09
+//@   requires 0 <= cryptoLen && cryptoLen <= 1099511627776 && len(budgets) >= 1
+//@   ensures [non-empty] implies(result == nil, len(payloads) >= 1)
+//@   modifies nothing
+//@ loop validateInitialFlight #0
+//@   invariant len(sent) == cryptoLen && isfresh(sent)
+//@   modifies sent[*]
+//@ loop validateInitialFlight #1
+//@   invariant len(sent) == cryptoLen && isfresh(sent)
+//@   modifies sent[*]
+//@ loop validateInitialFlight #2
+//@   invariant len(sent) == cryptoLen && isfresh(sent) && j <= cf.Offset + cf.Length
+//@   modifies sent[*]
+//@ loop validateInitialFlight #3
+//@   modifies nothing
+
+//@ iface (f quic.QUICFrame) CryptoFrameInfo
+//@   modifies nothing
+//@ iface (f quic.QUICFrame) Read
+//@   modifies nothing
+
+//@ func (qfs QUICFrames) buildAbsolute
+//@   props C09
+//@   requires len(fullCrypto) <= 1099511627776
+//@   ensures [no-partial-output] implies(result1 != nil, result0 == nil)
+//@   modifies nothing
+//@ loop (qfs QUICFrames) buildAbsolute #0
+//@   invariant payload == nil || isfresh(payload)
+//@   modifies payload[*]
+
+// ---------------- Initial packet spec (C10) ----------------
+//@ func (ps *InitialPacketSpec) initialPN
+//@   props C10
+//@   ensures [in-range] result == ite(ps.InitPacketNumber > 4611686018427387903, 0, tomath(ps.InitPacketNumber))
+//@   ensures [valid] 0 <= result && result <= 4611686018427387903
+//@   modifies nothing
+
+//@ func (ps *InitialPacketSpec) tokenLength
+//@   props C10
+//@   ensures result == max(ps.ClientTokenLength, len(ps.ClientTokenPrefix))
+//@   modifies nothing
+
+//@ func (ps *InitialPacketSpec) planFor
+//@   props C10 C09
+//@   requires idx >= 0
+//@   ensures [none] implies(len(ps.InitialPackets) == 0, result.CryptoLength == 0 && result.PacketSize == 0)
+//@   ensures [last-repeats] implies(len(ps.InitialPackets) > 0, result.CryptoLength == ps.InitialPackets[min(idx, len(ps.InitialPackets) - 1)].CryptoLength && result.PacketSize == ps.InitialPackets[min(idx, len(ps.InitialPackets) - 1)].PacketSize)
+//@   modifies nothing
+
+//@ func (ps *InitialPacketSpec) getTokenStore
+//@   props C10
+//@   let n = max(ps.ClientTokenLength, len(ps.ClientTokenPrefix))
+//@   ensures [explicit-wins] implies(ps.TokenStore != nil, result == ps.TokenStore)
+//@   ensures [absent] implies(ps.TokenStore == nil && n <= 0, result == nil)
+//@   ensures [synthesised] implies(ps.TokenStore == nil && n > 0, typeis(result, *dummyTokenStore) && dyn(result, *dummyTokenStore).tokenLength == n && samearray(dyn(result, *dummyTokenStore).prefix, ps.ClientTokenPrefix) && len(dyn(result, *dummyTokenStore).prefix) == len(ps.ClientTokenPrefix))
+//@   modifies nothing
+
+//@ extern crypto/rand.Read
+//@   ensures result0 == len(b) && result1 == nil
+//@   modifies b[:]
+
+//@ func (d *dummyTokenStore) Pop
+//@   props C10
+//@   requires 0 <= d.tokenLength && d.tokenLength <= 1099511627776
+//@   ensures [length] result != nil && len(result.data) == d.tokenLength
+//@   ensures [fresh-per-dial] isfresh(result.data)
+//@   ensures [prefix] forall(k, 0, min(len(d.prefix), d.tokenLength), result.data[k] == d.prefix[k])
+//@   modifies nothing
+
+// ---------------- Initial packet serialisation (C10) ----------------
+//@ const aeadOvh = ufi("aead.overhead")
+//@ iface (s quic.sealer) Overhead
+//@   ensures result == ufi("aead.overhead") && 0 <= result && result <= 64
+//@   modifies nothing
+//@ iface (s quic.sealer) Seal
+//@   modifies dst[:]
+//@ iface (s quic.sealer) EncryptHeader
+//@   modifies *firstByte, pnBytes[:]
+//@ iface (m quic.packetNumberManager) PopPacketNumber
+//@   modifies nothing
+//@ iface (m quic.packetNumberManager) PeekPacketNumber
+//@   modifies nothing
+
+//@ func (p *packetPacker) encryptPacket
+//@   props C10
+//@   requires sealer != nil && 0 <= pnLen && pnLen <= payloadOffset && payloadOffset <= len(raw) && len(raw) >= 1
+//@   requires len(raw) + ufi("aead.overhead") <= cap(raw) && payloadOffset - pnLen + 20 <= cap(raw)
+//@   ensures [len] len(result) == len(raw) + ufi("aead.overhead")
+//@   ensures [in-place] samearray(result, raw) && cap(result) == cap(raw)
+//@   modifies raw[:]
+
+//@ func (p *uPacketPacker) appendInitialPacketPayload
+//@   props C10
+//@   let ps = p.uSpec.InitialPacketSpec
+//@   let np = len(ps.InitialPackets)
+//@   let psize = ite(np == 0, 0, ps.InitialPackets[min(idx, np - 1)].PacketSize)
+//@   let ovh = ufi("aead.overhead")
+//@   let hl = wire.hdrlen(int(header.DestConnectionID.l), int(header.SrcConnectionID.l), int(header.PacketNumberLen), header.Type == protocol.PacketTypeInitial, len(header.Token))
+//@   let minudp = ite(p.uSpec.UDPDatagramMinSize == 0, 1200, p.uSpec.UDPDatagramMinSize)
+//@   let cur = hl + old(len(uPayload)) + ovh
+//@   let plen = ite(psize > cur, psize, cur)
+//@   requires p.uSpec != nil && p.packetPacker != nil && p.packetPacker.pnManager != nil && header != nil && buffer != nil && sealer != nil && idx >= 0
+//@   requires header.Type != protocol.PacketTypeRetry && len(header.Token) <= 65536 && len(uPayload) <= 65536 && cap(buffer.Data) <= 16383 && 0 <= psize && psize <= 1048576 && 0 <= p.uSpec.UDPDatagramMinSize && p.uSpec.UDPDatagramMinSize <= 1048576
+//@   requires header.DestConnectionID.l <= 20 && header.SrcConnectionID.l <= 20
+//@   requires len(uPayload) + header.PacketNumberLen + ovh >= 20
+//@   ensures [too-big-rejected] implies(plen > old(cap(buffer.Data)) - old(len(buffer.Data)), result1 != nil && len(buffer.Data) == old(len(buffer.Data)))
+//@   ensures [exact-size] implies(result1 == nil && psize > 0, len(buffer.Data) == old(len(buffer.Data)) + plen && result0.length == plen)
+//@   ensures [exact-size-reached] implies(result1 == nil && psize >= cur, result0.length == psize)
+//@   ensures [min-udp-size] implies(result1 == nil && psize == 0, len(buffer.Data) == max(old(len(buffer.Data)) + plen, minudp) && result0.length == plen)
+//@   ensures [within-buffer] implies(result1 == nil && (psize > 0 || minudp <= old(cap(buffer.Data))), len(buffer.Data) <= old(cap(buffer.Data)) && samearray(buffer.Data, old(buffer.Data)))
+//@   ensures [length-field] implies(result1 == nil, header.Length == header.PacketNumberLen + ovh + (plen - hl - ovh) && result0.header == header)
+//@   ensures [pn-consumed-once] implies(result1 == nil, called("(quic.packetNumberManager).PopPacketNumber") == 1)
+//@   modifies header.Length, buffer.Data, elems(uint8)
+
+// ---------------- transport parameter suppression (C11) ----------------
+// The parameter identifier is modelled as a function of the interface value: ID() is stable once drawn (GREASE
+// parameters memoise their random identifier on the first call).
+//@ spec tpid(tp tls.TransportParameter) uint64 = uint64(uf("tpid", tp))
+//@ iface (tp tls.TransportParameter) ID
+//@   ensures result == tpid(tp)
+//@   modifies nothing
+
+//@ func IsGREASEQTPID
+//@   props C11
+//@   ensures [iff] iff(result, id >= 27 && (id - 27) % 31 == 0)
+//@   modifies nothing
+
+//@ spec listed(sup []uint64, n int, id int) bool = exists(k, 0, n, sup[k] == id)
+//@ spec dropped(sup []uint64, id int) bool = (id != 27 && listed(sup, len(sup), id)) || (listed(sup, len(sup), 27) && id >= 27 && (id - 27) % 31 == 0)
+
+//@ func SuppressQUICTransportParameters
+//@   props C11
+//@   opt forkappend yes
+//@   requires qtp == nil || len(qtp.TransportParameters) <= 65536
+//@   requires len(suppress) <= 65536
+//@   ensures [returns-arg] result == qtp
+//@   ensures [noop] implies(qtp != nil && len(suppress) == 0, len(qtp.TransportParameters) == old(len(qtp.TransportParameters)) && samearray(qtp.TransportParameters, old(qtp.TransportParameters)))
+//@   ensures [none-left] implies(qtp != nil && len(suppress) > 0, forall(j, 0, len(qtp.TransportParameters), !dropped(suppress, tpid(qtp.TransportParameters[j]))))
+//@   ensures [only-shrinks] implies(qtp != nil, len(qtp.TransportParameters) <= old(len(qtp.TransportParameters)) && samearray(qtp.TransportParameters, old(qtp.TransportParameters)))
+//@   modifies qtp.TransportParameters, qtp.TransportParameters[*]
+//@ loop SuppressQUICTransportParameters #0
+//@   invariant 0 <= rangeidx && rangeidx <= len(suppress)
+//@   invariant iff(suppressGREASE, listed(suppress, rangeidx, 27))
+//@   invariant forall(x, iff(has(ids, x), x != 27 && listed(suppress, rangeidx, x)))
+//@   invariant isfresh(ids)
+//@   modifies ids[*]
+//@ loop SuppressQUICTransportParameters #1
+//@   invariant 0 <= rangeidx && rangeidx <= old(len(qtp.TransportParameters)) && old(len(qtp.TransportParameters)) <= old(cap(qtp.TransportParameters))
+//@   invariant iff(suppressGREASE, listed(suppress, len(suppress), 27))
+//@   invariant forall(x, iff(has(ids, x), x != 27 && listed(suppress, len(suppress), x)))
+//@   invariant len(kept) <= rangeidx && samearray(kept, old(qtp.TransportParameters)) && cap(kept) == old(cap(qtp.TransportParameters))
+//@   invariant forall(j, 0, len(kept), !has(ids, tpid(kept[j])) && !(suppressGREASE && tpid(kept[j]) >= 27 && (tpid(kept[j]) - 27) % 31 == 0), trig(kept, j))
+//@   modifies old(qtp.TransportParameters)[*]
+
+// ---------------- enforced limits >= advertised limits (C12) ----------------
+//@ func (c *Config) Clone
+//@   props C12
+//@   ensures [fresh-copy] result != nil && isfresh(result)
+//@   ensures [same-values] result.InitialConnectionReceiveWindow == c.InitialConnectionReceiveWindow && result.InitialStreamReceiveWindow == c.InitialStreamReceiveWindow && result.MaxStreamReceiveWindow == c.MaxStreamReceiveWindow && result.MaxConnectionReceiveWindow == c.MaxConnectionReceiveWindow && result.MaxIncomingStreams == c.MaxIncomingStreams && result.MaxIncomingUniStreams == c.MaxIncomingUniStreams && result.MaxIdleTimeout == c.MaxIdleTimeout && result.EnableDatagrams == c.EnableDatagrams
+//@   modifies nothing
+
+//@ spec covers(c *Config, tp tls.TransportParameter) bool =
+//@   implies(typeis(tp, tls.InitialMaxData), c.InitialConnectionReceiveWindow >= dyn(tp, tls.InitialMaxData) && c.MaxConnectionReceiveWindow >= dyn(tp, tls.InitialMaxData)) &&
+//@   implies(typeis(tp, tls.InitialMaxStreamDataBidiLocal), c.InitialStreamReceiveWindow >= dyn(tp, tls.InitialMaxStreamDataBidiLocal)) &&
+//@   implies(typeis(tp, tls.InitialMaxStreamDataBidiRemote), c.InitialStreamReceiveWindow >= dyn(tp, tls.InitialMaxStreamDataBidiRemote)) &&
+//@   implies(typeis(tp, tls.InitialMaxStreamDataUni), c.InitialStreamReceiveWindow >= dyn(tp, tls.InitialMaxStreamDataUni)) &&
+//@   implies(typeis(tp, tls.InitialMaxStreamsBidi) && dyn(tp, tls.InitialMaxStreamsBidi) <= 1152921504606846976, c.MaxIncomingStreams >= dyn(tp, tls.InitialMaxStreamsBidi)) &&
+//@   implies(typeis(tp, tls.InitialMaxStreamsUni) && dyn(tp, tls.InitialMaxStreamsUni) <= 1152921504606846976, c.MaxIncomingUniStreams >= dyn(tp, tls.InitialMaxStreamsUni)) &&
+//@   implies(typeis(tp, tls.MaxIdleTimeout) && dyn(tp, tls.MaxIdleTimeout) <= 9223372036854, c.MaxIdleTimeout >= dyn(tp, tls.MaxIdleTimeout) * 1000000) &&
+//@   implies(typeis(tp, tls.MaxDatagramFrameSize) && dyn(tp, tls.MaxDatagramFrameSize) > 0, c.EnableDatagrams)
+
+//@ func (s *QUICSpec) configEnforcingAdvertisedLimits
+//@   props C12
+//@   requires conf != nil
+//@   let exts = s.ClientHelloSpec.Extensions
+//@   ensures [no-spec] implies(s.ClientHelloSpec == nil, result == conf)
+//@   ensures [advertised-covered] implies(s.ClientHelloSpec != nil, forall(e, 0, len(exts), implies(typeis(exts[e], *tls.QUICTransportParametersExtension) && forall(f, 0, e, !typeis(exts[f], *tls.QUICTransportParametersExtension)),
+//@                                    forall(k, 0, len(dyn(exts[e], *tls.QUICTransportParametersExtension).TransportParameters), covers(result, dyn(exts[e], *tls.QUICTransportParametersExtension).TransportParameters[k])))))
+//@   ensures [windows-consistent] implies(result != conf, result.MaxStreamReceiveWindow >= result.InitialStreamReceiveWindow && result.MaxConnectionReceiveWindow >= result.InitialConnectionReceiveWindow)
+//@   ensures [never-lower] result.InitialConnectionReceiveWindow >= conf.InitialConnectionReceiveWindow && result.InitialStreamReceiveWindow >= conf.InitialStreamReceiveWindow && result.MaxIncomingStreams >= conf.MaxIncomingStreams && result.MaxIncomingUniStreams >= conf.MaxIncomingUniStreams && result.MaxIdleTimeout >= conf.MaxIdleTimeout && implies(conf.EnableDatagrams, result.EnableDatagrams)
+//@   modifies nothing
+//@ loop (s *QUICSpec) configEnforcingAdvertisedLimits #0
+//@   invariant 0 <= rangeidx && rangeidx <= len(exts)
+//@   invariant forall(f, 0, rangeidx, !typeis(exts[f], *tls.QUICTransportParametersExtension))
+//@   modifies nothing
+//@ loop (s *QUICSpec) configEnforcingAdvertisedLimits #1
+//@   invariant 0 <= rangeidx1 && rangeidx1 <= len(qtp.TransportParameters) && c != nil && isfresh(c) && c != conf
+//@   invariant forall(k, 0, rangeidx1, covers1(c, qtp.TransportParameters[k]))
+//@   invariant c.InitialConnectionReceiveWindow >= conf.InitialConnectionReceiveWindow && c.InitialStreamReceiveWindow >= conf.InitialStreamReceiveWindow && c.MaxIncomingStreams >= conf.MaxIncomingStreams && c.MaxIncomingUniStreams >= conf.MaxIncomingUniStreams && c.MaxIdleTimeout >= conf.MaxIdleTimeout && implies(conf.EnableDatagrams, c.EnableDatagrams)
+//@   modifies c.*
+//@ spec covers1(c *Config, tp tls.TransportParameter) bool =
+//@   implies(typeis(tp, tls.InitialMaxData), c.InitialConnectionReceiveWindow >= dyn(tp, tls.InitialMaxData)) &&
+//@   implies(typeis(tp, tls.InitialMaxStreamDataBidiLocal), c.InitialStreamReceiveWindow >= dyn(tp, tls.InitialMaxStreamDataBidiLocal)) &&
+//@   implies(typeis(tp, tls.InitialMaxStreamDataBidiRemote), c.InitialStreamReceiveWindow >= dyn(tp, tls.InitialMaxStreamDataBidiRemote)) &&
+//@   implies(typeis(tp, tls.InitialMaxStreamDataUni), c.InitialStreamReceiveWindow >= dyn(tp, tls.InitialMaxStreamDataUni)) &&
+//@   implies(typeis(tp, tls.InitialMaxStreamsBidi) && dyn(tp, tls.InitialMaxStreamsBidi) <= 1152921504606846976, c.MaxIncomingStreams >= dyn(tp, tls.InitialMaxStreamsBidi)) &&
+//@   implies(typeis(tp, tls.InitialMaxStreamsUni) && dyn(tp, tls.InitialMaxStreamsUni) <= 1152921504606846976, c.MaxIncomingUniStreams >= dyn(tp, tls.InitialMaxStreamsUni)) &&
+//@   implies(typeis(tp, tls.MaxIdleTimeout) && dyn(tp, tls.MaxIdleTimeout) <= 9223372036854, c.MaxIdleTimeout >= dyn(tp, tls.MaxIdleTimeout) * 1000000) &&
+//@   implies(typeis(tp, tls.MaxDatagramFrameSize) && dyn(tp, tls.MaxDatagramFrameSize) > 0, c.EnableDatagrams)
+
+// ---------------- forged Retry / Version Negotiation packets (C13) ----------------
+//@ extern bytes.Equal
+//@   modifies nothing
+//@ iface (h ackhandler.SentPacketHandler) ResetForRetry
+//@   modifies nothing
+//@ iface (h ackhandler.SentPacketHandler) PeekPacketNumber
+//@   modifies nothing
+//@ iface (h quic.cryptoStreamHandler) ChangeConnectionID
+//@   modifies nothing
+//@ iface (p quic.packer) SetToken
+//@   modifies nothing
+//@ func (c *Conn) scheduleSending
+//@   trusted non-blocking send on a signalling channel (channels are not modelled)
+//@   modifies nothing
+//@ func (c *Conn) destroyImpl
+//@   trusted tears the connection down (close path, not modelled here)
+//@   modifies nothing
+
+//@ func (h *connIDManager) ChangeInitialConnID
+//@   props C16
+//@   panics when h.activeSequenceNumber != 0
+//@   ensures [replaced] h.activeConnectionID.l == newConnID.l
+//@   modifies h.activeConnectionID.*
+
+// ---------------- send stream: new data never exceeds the peer's credit (C04) ----------------
+//@ func (s *SendStream) signalWrite
+//@   trusted non-blocking send on a signalling channel (channels are not modelled)
+//@   modifies nothing
+
+//@ func (s *SendStream) reliableOffset
+//@   props C04
+//@   ensures result == ite(s.supportsResetStreamAt, s.reliableSize, 0)
+//@   modifies nothing
+
+//@ func (s *SendStream) canBufferStreamFrame
+//@   props C04
+//@   requires s.nextFrame == nil || len(s.nextFrame.Data) <= 1099511627776
+//@   modifies nothing
+
+//@ func (s *SendStream) getDataForWriting
+//@   props C04
+//@   requires f != nil && 0 <= maxBytes && min(len(s.dataForWriting), maxBytes) <= cap(f.Data) && (s.nextFrame == nil || len(s.nextFrame.Data) <= 1099511627776)
+//@   ensures [exactly-what-fits] len(f.Data) == min(old(len(s.dataForWriting)), maxBytes)
+//@   ensures [rest-kept] len(s.dataForWriting) == old(len(s.dataForWriting)) - len(f.Data)
+//@   ensures [same-buffer] samearray(f.Data, old(f.Data))
+//@   modifies f.Data, f.Data[*], s.dataForWriting
+
+//@ func (s *SendStream) popNewStreamFrameWithoutBuffer
+//@   props C04
+//@   arith bv
+//@   requires f != nil && f.valid() && 0 <= maxBytes && maxBytes <= 1452 && 0 <= sendWindow && cap(f.Data) == 1452 && (s.nextFrame == nil || len(s.nextFrame.Data) <= 1099511627776)
+//@   ensures [within-window] len(f.Data) <= sendWindow || len(f.Data) == old(len(f.Data))
+//@   ensures [rest-kept] len(s.dataForWriting) <= old(len(s.dataForWriting))
+//@   modifies f.Data, f.Data[*], s.dataForWriting
+
+//@ func (s *SendStream) popNewStreamFrame
+//@   props C04
+//@   arith bv
+//@   requires 0 <= maxBytes && maxBytes <= 1452 && 0 <= maxDataLen && 0 <= s.streamID && s.streamID <= 4611686018427387903 && 0 <= s.writeOffset && s.writeOffset <= 4611686018427387903 - 1099511627776
+//@   requires s.nextFrame == nil || (s.nextFrame.valid() && len(s.nextFrame.Data) <= 1452)
+//@   ensures [within-window] implies(result0 != nil, len(result0.Data) <= maxDataLen)
+//@   modifies s.nextFrame, s.dataForWriting, elems(uint8), heap(wire.StreamFrame.Data), heap(wire.StreamFrame.StreamID), heap(wire.StreamFrame.Offset), heap(wire.StreamFrame.DataLenPresent), heap(wire.StreamFrame.Fin), heap(wire.StreamFrame.fromPool)
+
+//@ func (s *SendStream) maybeGetRetransmission
+//@   props C04
+//@   arith bv
+//@   requires len(s.retransmissionQueue) >= 1 && s.retransmissionQueue[0] != nil && s.retransmissionQueue[0].valid() && 0 <= maxBytes && maxBytes <= 1452
+//@   requires s.retransmissionQueue[0].Offset + len(s.retransmissionQueue[0].Data) <= 4611686018427387903 && len(s.retransmissionQueue[0].Data) <= 1452
+//@   ensures [progress-or-more] result0 != nil || result1
+//@   modifies s.retransmissionQueue, elems(uint8), heap(wire.StreamFrame.Data), heap(wire.StreamFrame.Offset), heap(wire.StreamFrame.fromPool)
+
+//@ func (s *SendStream) popNewOrRetransmittedStreamFrame
+//@   props C04
+//@   arith bv
+//@   let fc = dyn(s.flowController, *flowcontrol.streamFlowController)
+//@   let conn = dyn(fc.connection, *flowcontrol.connectionFlowController)
+//@   requires s.flowController != nil && typeis(s.flowController, *flowcontrol.streamFlowController) && fc.sInv()
+//@   requires 0 <= maxBytes && maxBytes <= 1452 && 0 <= s.streamID && s.streamID <= 4611686018427387903 && 0 <= s.writeOffset && s.writeOffset <= 4611686018427387903 - 1099511627776
+//@   requires s.nextFrame == nil || (s.nextFrame.valid() && len(s.nextFrame.Data) <= 1452)
+//@   requires implies(len(s.retransmissionQueue) >= 1, s.retransmissionQueue[0] != nil && s.retransmissionQueue[0].valid() && s.retransmissionQueue[0].Offset + len(s.retransmissionQueue[0].Data) <= 4611686018427387903 && len(s.retransmissionQueue[0].Data) <= 1452)
+//@   maxpaths 20000
+//@   requires fc.bytesSent <= 4611686018427387903 - 1099511627776 && conn.bytesSent <= 4611686018427387903 - 1099511627776
+//@   let window = old(min(ite(fc.bytesSent > fc.sendWindow, 0, fc.sendWindow - fc.bytesSent), ite(conn.bytesSent > conn.sendWindow, 0, conn.sendWindow - conn.bytesSent)))
+//@   ensures [new-data-within-credit] fc.bytesSent - old(fc.bytesSent) <= window && fc.bytesSent >= old(fc.bytesSent)
+//@   ensures [conn-credit-too] conn.bytesSent - old(conn.bytesSent) == fc.bytesSent - old(fc.bytesSent)
+//@   ensures [offset-advances-with-credit] s.writeOffset - old(s.writeOffset) == fc.bytesSent - old(fc.bytesSent)
+//@   ensures [nothing-after-shutdown] implies(old(s.shutdownErr) != nil, result0 == nil && result1 == nil && !hasMoreData && fc.bytesSent == old(fc.bytesSent))
+//@   modifies s.nextFrame, s.dataForWriting, s.writeOffset, s.finSent, s.retransmissionQueue, fc.bytesSent, conn.bytesSent, fc.lastBlockedAt, elems(uint8), heap(wire.StreamFrame.Data), heap(wire.StreamFrame.StreamID), heap(wire.StreamFrame.Offset), heap(wire.StreamFrame.DataLenPresent), heap(wire.StreamFrame.Fin), heap(wire.StreamFrame.fromPool)
+
+// ---------------- per-datagram CRYPTO budget of the spec-driven packer (C10) ----------------
+// Everything the packer calls after the budget has been computed is given an "anything may change" contract: the
+// obligation below only concerns the value handed to maybeGetCryptoPacket for the Initial packet.
+//@ iface (m quic.sealingManager) GetInitialSealer
+//@   modifies nothing
+//@ iface (m quic.sealingManager) GetHandshakeSealer
+//@   modifies nothing
+//@ iface (m quic.sealingManager) Get0RTTSealer
+//@   modifies nothing
+//@ iface (m quic.sealingManager) Get1RTTSealer
+//@   modifies nothing
+//@ iface (s handshake.LongHeaderSealer) Overhead
+//@   ensures result == ufi("aead.overhead") && 0 <= result && result <= 64
+//@   modifies nothing
+//@ iface (s handshake.ShortHeaderSealer) Overhead
+//@   ensures result == ufi("aead.overhead") && 0 <= result && result <= 64
+//@   modifies nothing
+//@ iface (s handshake.ShortHeaderSealer) KeyPhase
+//@   modifies nothing
+
+//@ func (p *uPacketPacker) planInitialFlight
+//@   trusted plans a whole flight when the spec's builder is a QUICFlightFrameBuilder (its pieces are under contract: PopAllCryptoData, validateInitialFlight, the range builders); assumed: without a resulting plan the Initial stream is untouched
+//@   ensures implies(result == nil && len(p.flightPayloads) == 0, p.packetPacker.initialStream.writeOffset == old(p.packetPacker.initialStream.writeOffset))
+//@   ensures p.uSpec == old(p.uSpec) && p.initialDatagramIdx == old(p.initialDatagramIdx) && p.packetPacker == old(p.packetPacker) && p.packetPacker.initialStream == old(p.packetPacker.initialStream)
+//@   modifies p.flightPlanned, p.flightPayloads, p.packetPacker.initialStream.writeOffset, p.packetPacker.initialStream.writeBuf
+//@ func (p *uPacketPacker) packPlannedInitial
+//@   trusted serialises one planned datagram through appendInitialPacketPayload (under contract)
+//@   modifies everything
+//@ func (p *packetPacker) getLongHeader
+//@   trusted builds the header from the packer's state and PeekPacketNumber
+//@   ensures result != nil && isfresh(result) && len(result.Token) <= 65536 && result.DestConnectionID.l <= 20 && result.SrcConnectionID.l <= 20
+//@   modifies nothing
+//@ func (p *packetPacker) maybeGetCryptoPacket
+//@   trusted quic-go's payload composition (ACK + CRYPTO + retransmissions) for one encryption level
+//@   modifies everything
+//@ func (p *packetPacker) longHeaderPacketLength
+//@   trusted
+//@   modifies nothing
+//@ func (p *packetPacker) shortHeaderPacketLength
+//@   trusted
+//@   modifies nothing
+//@ func (p *packetPacker) maybeGetShortHeaderPacket
+//@   trusted
+//@   modifies everything
+//@ func (p *packetPacker) maybeGetAppDataPacketFor0RTT
+//@   trusted
+//@   modifies everything
+//@ func (p *packetPacker) initialPaddingLen
+//@   trusted
+//@   modifies nothing
+//@ func (p *packetPacker) appendLongHeaderPacket
+//@   trusted
+//@   modifies everything
+//@ func (p *packetPacker) appendShortHeaderPacket
+//@   trusted
+//@   modifies everything
+//@ func (p *uPacketPacker) appendInitialPacket
+//@   trusted marshals the payload through the spec's builder, then appendInitialPacketPayload (under contract)
+//@   modifies everything
+//@ func getPacketBuffer
+//@   trusted sync.Pool
+//@   ensures result != nil
+//@   modifies nothing
+
+//@ func (p *uPacketPacker) PackCoalescedPacket
+//@   props C10
+//@   requires p.uSpec != nil && p.packetPacker != nil && p.packetPacker.cryptoSetup != nil && p.packetPacker.pnManager != nil && p.packetPacker.initialStream != nil && p.initialDatagramIdx >= 0
+//@   requires 0 <= p.packetPacker.initialStream.writeOffset && p.packetPacker.initialStream.writeOffset <= 4611686018427387903 && 0 <= maxSize && maxSize <= 65536
+//@   let ps = p.uSpec.InitialPacketSpec
+//@   let np = len(ps.InitialPackets)
+//@   let cl = old(ite(np == 0, 0, ps.InitialPackets[min(p.initialDatagramIdx, np - 1)].CryptoLength))
+//@   let hdr = lastresult("(*ExtendedHeader).GetLength")
+//@   requires np == 0 || (0 <= ps.InitialPackets[min(p.initialDatagramIdx, np - 1)].CryptoLength && ps.InitialPackets[min(p.initialDatagramIdx, np - 1)].CryptoLength <= 1099511627776)
+//@   opt cutafter (*packetPacker).maybeGetCryptoPacket | (quic.sealingManager).GetHandshakeSealer | (quic.sealingManager).Get1RTTSealer
+//@   opt prune yes
+//@   let budget = hdr + 1 + quicvarint.vlen(uint64(old(p.packetPacker.initialStream.writeOffset))) + quicvarint.vlen(uint64(cl)) + cl
+//@   let firstIsInitial = called("(*packetPacker).maybeGetCryptoPacket") >= 1 && callarg("(*packetPacker).maybeGetCryptoPacket", 0, 2) == protocol.EncryptionInitial
+//@   ensures [crypto-length-budget] implies(firstIsInitial && 0 < cl && cl <= 4611686018427387903 && budget < maxSize - ufi("aead.overhead"), callarg("(*packetPacker).maybeGetCryptoPacket", 0, 1) == budget)
+//@   ensures [never-above-datagram] implies(firstIsInitial, callarg("(*packetPacker).maybeGetCryptoPacket", 0, 1) <= maxSize - ufi("aead.overhead"))
+//@   modifies everything
+
+//@ func (p *receivedPacket) Size
+//@   props C13
+//@   ensures result == len(p.data)
+//@   modifies nothing
+
+//@ func (c *Conn) handleVersionNegotiationPacket
+//@   props C13
+//@   requires c.sentPacketHandler != nil && c.config != nil && len(p.data) <= 1099511627776
+//@   let late = old(c.perspective == protocol.PerspectiveServer || c.receivedFirstPacket || c.versionNegotiated)
+//@   ensures [ignored-after-first-packet-or-negotiation] implies(late, result == nil && called("ParseVersionNegotiationPacket") == 0 && called("(*Conn).destroyImpl") == 0 && called("ChooseSupportedVersion") == 0)
+//@   ensures [offered-version-listed-is-ignored] implies(called("Contains") == 1 && lastresultb("Contains"), result == nil && called("(*Conn).destroyImpl") == 0 && called("ChooseSupportedVersion") == 0)
+//@   ensures [outcome] implies(result != nil, typeis(result, *errCloseForRecreating) && !late && called("ChooseSupportedVersion") == 1 && called("(*Conn).destroyImpl") == 0)
+//@   ensures [no-common-version-closes] implies(called("(*Conn).destroyImpl") == 1, result == nil && !late)
+//@   ensures [state-untouched] c.version == old(c.version) && c.versionNegotiated == old(c.versionNegotiated) && c.receivedFirstPacket == old(c.receivedFirstPacket)
+//@   opt prune yes
+//@   modifies nothing
+
+//@ func (c *Conn) handleRetryPacket
+//@   props C13
+//@   requires c.connIDManager != nil && c.connIDManager.qInv() && !c.connIDManager.closed && c.connIDManager.activeSequenceNumber == 0 && !c.connIDManager.handshakeComplete
+//@   requires c.sentPacketHandler != nil && c.cryptoStreamHandler != nil && c.packer != nil && hdr != nil && len(data) >= 16
+//@   let ignored = old(c.perspective == protocol.PerspectiveServer || c.receivedFirstPacket || c.receivedRetry)
+//@   ensures [ignored-when-late-or-server] implies(ignored, !result && called("GetRetryIntegrityTag") == 0)
+//@   ensures [invalid-tag-ignored] implies(called("Equal") == 1 && !lastresultb("Equal"), !result)
+//@   ensures [tag-always-checked] implies(result, called("GetRetryIntegrityTag") == 1 && called("Equal") == 1 && lastresultb("Equal") && !ignored)
+//@   ensures [state-untouched-when-ignored] implies(!result, c.receivedRetry == old(c.receivedRetry) && c.retrySrcConnID == old(c.retrySrcConnID) && c.handshakeDestConnID.l == old(c.handshakeDestConnID.l) && called("(ackhandler.SentPacketHandler).ResetForRetry") == 0 && called("(quic.packer).SetToken") == 0 && called("(quic.cryptoStreamHandler).ChangeConnectionID") == 0 && called("(*connIDManager).ChangeInitialConnID") == 0)
+//@   ensures [accepted-once] implies(result, c.receivedRetry && !old(c.receivedRetry) && c.retrySrcConnID != nil && called("(ackhandler.SentPacketHandler).ResetForRetry") == 1 && called("(quic.packer).SetToken") == 1 && called("(quic.cryptoStreamHandler).ChangeConnectionID") == 1 && called("(*connIDManager).ChangeInitialConnID") == 1)
+//@   opt prune yes
+//@   modifies c.receivedRetry, c.handshakeDestConnID.*, c.retrySrcConnID, c.connIDManager.activeConnectionID.*, c.connIDManager.highestRetired, c.connIDManager.queue, c.connIDManager.activeSequenceNumber, c.connIDManager.activeStatelessResetToken, c.connIDManager.packetsSinceLastChange, c.connIDManager.packetsPerConnectionID, c.connIDManager.rand.*
+
+//@ spec cideq(a protocol.ConnectionID, b protocol.ConnectionID) bool = a.l == b.l && a.b == b.b
+//@ func (c *Conn) checkTransportParameters
+//@   props C13
+//@   requires params != nil
+//@   let client = c.perspective != protocol.PerspectiveServer
+//@   ensures [authenticated-iff] iff(result == nil,
+//@              cideq(params.InitialSourceConnectionID, c.handshakeDestConnID) &&
+//@              implies(client, cideq(params.OriginalDestinationConnectionID, c.origDestConnID) &&
+//@                              ite(c.retrySrcConnID != nil, params.RetrySourceConnectionID != nil && cideq(*params.RetrySourceConnectionID, *c.retrySrcConnID), params.RetrySourceConnectionID == nil)))
+//@   modifies nothing
